@@ -151,6 +151,15 @@ func (w *PullWorld) authHeader(op *PullOp, r *RouteSpec, admin bool) (vals []str
 		return []string{"bearer " + good}, nil // scheme case: not specified
 	case "raw":
 		return []string{good}, &no
+	case "trailing_word":
+		// a valid token followed by something else: the credential as a whole is not on the list
+		return []string{"Bearer " + good + " junk"}, &no
+	case "trailing_token":
+		return []string{"Bearer " + good + " " + other}, &no
+	case "trailing_scheme":
+		return []string{"Bearer " + good + "\tBearer nope"}, &no
+	case "leading_word":
+		return []string{"Bearer junk " + good}, &no
 	case "two_values":
 		// several values: HTTP servers see the first; gRPC metadata sees all
 		return []string{"Bearer wrong-one", "Bearer " + good}, nil
@@ -727,7 +736,7 @@ func RunPullProgram(p *Program) *Result {
 
 // ---- generator ---------------------------------------------------------------
 
-var pullTokenVariants = []string{"ok_route", "ok_route", "ok_route", "ok_last", "other_route", "none", "basic", "empty", "prefix", "suffix", "case", "lower_scheme", "raw", "two_values"}
+var pullTokenVariants = []string{"ok_route", "ok_route", "ok_route", "ok_last", "other_route", "none", "basic", "empty", "prefix", "suffix", "case", "lower_scheme", "raw", "two_values", "trailing_word", "trailing_token", "trailing_scheme", "leading_word"}
 
 // RaceStep: the same single-lease ack or nack is sent two or three times at
 // once over HTTP - a consumer that retries while its first attempt is still in
